@@ -150,6 +150,8 @@ type Case struct {
 	// called from a storage callback / from another goroutine while the callback is
 	// blocked) instead of through the context given to Exec.
 	QCancel bool `json:"qcancel,omitempty"`
+	// QClose: like QCancel, through Query.Close (called while Exec is running).
+	QClose bool `json:"qclose,omitempty"`
 }
 
 func (c *Case) Key() string {
